@@ -1,12 +1,15 @@
 // C09 stress client + recorder: rounds of N threads racing dispatch_once_f on a fresh predicate, with schedule
 // perturbation inside the library's atomic windows and signals (EINTR) aimed at threads that may be parked.
+// Every call goes either directly to the library function dispatch_once_f (call mark argument 0) or through the REAL inline
+// wrapper of dispatch/once.h, _dispatch_once_f (call mark argument 1: plain read of the predicate, the library is called only
+// if it is not ~0l); after the race the main thread makes one more call through the wrapper (a "later call": fast path).
 // usage: c09_once <seed> <rounds> <perturb_permille>
-// output: "R <round> <nthreads>" lines, then the recorder dump (E lines; obj = round).
+// output: "R <round> <nthreads> <initialiser runs> <final predicate, hex>" lines, then the recorder dump (E lines; obj = round).
 #include <dispatch/dispatch.h>
 #include <signal.h>
 #include <errno.h>
 #include "dv_record.h"
-#undef dispatch_once_f   // call the library function itself; the inline fast path of dispatch/once.h is reproduced below
+#undef dispatch_once_f   // dispatch_once_f = the library function itself; _dispatch_once_f = the inline wrapper of dispatch/once.h
 
 #define MAXT 8
 typedef struct { long pred; int round; volatile int inits; } slot_t;
@@ -27,10 +30,13 @@ static void *thr(void *a) {
 	pthread_barrier_wait(&bar);
 	for (int c = 0; c < t->calls; c++) {
 		if ((t->rng >> (c * 3)) & 1) usleep((useconds_t)((t->rng >> 8) % 200));
-		// the inline fast path of dispatch/once.h: a plain read, ~0 means done
-		if (*(volatile long *)&s->pred == ~0l) { dv_user(DVU_MARK, s->round, 1, 0); continue; }
-		dv_user(DVU_CALL, s->round, 0, 0);
-		dispatch_once_f(&s->pred, s, init_fn);
+		if ((t->rng >> (c * 3 + 1)) & 1) {
+			dv_user(DVU_CALL, s->round, 1, 0);
+			_dispatch_once_f(&s->pred, s, init_fn);      // dispatch/once.h
+		} else {
+			dv_user(DVU_CALL, s->round, 0, 0);
+			dispatch_once_f(&s->pred, s, init_fn);       // src/once.c
+		}
 		dv_user(DVU_RET, s->round, 0, 0);
 	}
 	return NULL;
@@ -57,7 +63,9 @@ int main(int argc, char **argv) {
 		for (int j = 0; j < 6; j++) { usleep((useconds_t)((r >> (j * 5)) % 120)); pthread_kill(th[(r >> (j * 3)) % (unsigned)n], SIGUSR1); }
 		for (int k = 0; k < n; k++) pthread_join(th[k], NULL);
 		pthread_barrier_destroy(&bar);
-		printf("R %d %d %d\n", i, n, slots[i].inits);
+		// a later call through the wrapper: the predicate is ~0l, the library must not be entered
+		dv_user(DVU_CALL, i, 1, 0); _dispatch_once_f(&slots[i].pred, &slots[i], init_fn); dv_user(DVU_RET, i, 0, 0);
+		printf("R %d %d %d %lx\n", i, n, slots[i].inits, (unsigned long)slots[i].pred);
 		if (i % 60 == 59) { dv_untrack_all(); }
 	}
 	dv_dump(stdout);
